@@ -18,7 +18,9 @@ PartR == <<NText("[r:"), Include(S("p"), "none", NilE, "", <<>>), NText("]")>>
 PartS == <<NOut(P(VP("forloop", "index"))), NText(":"), NOut(P(V("s"))), NOut(P(V("v"))), Assign("v", P(I(1))), Incr("k"),
            Cycle("", <<S("a"), S("b")>>, "|a,b"), NText(";")>>
 PartB == <<NText("b1"), Break, NText("b2")>>
-MCPartials == << <<"p", PartP>>, <<"q", PartQ>>, <<"r", PartR>>, <<"s", PartS>>, <<"b", PartB>> >>
+Boom == NOut(F(I(1), <<Fl("divided_by", <<I(0)>>)>>))       \* raises LiquidTypeError
+PartE == <<NText("[e:"), Assign("y", P(S("E"))), Boom, NText("]")>>
+MCPartials == << <<"p", PartP>>, <<"q", PartQ>>, <<"r", PartR>>, <<"s", PartS>>, <<"b", PartB>>, <<"e", PartE>> >>
 
 MCData == { << <<<<"x", vx>>, <<"y", Str("Y")>>, <<"arr", Arr(<<IntV(1), IntV(2)>>)>>, <<"n", Str("p")>>>>, <<>>, <<>>, <<>> >>
               : vx \in {Str("X")} }
@@ -58,6 +60,12 @@ Blocks == {With(<<WArg("x", I(1)), WArg("w", Y)>>, <<NOut(P(X)), Assign("x", P(I
            For("i", V("arr"), "arr", NoOpt, NoOpt, FALSE, <<RenderT(S("q"), "with", V("i"), "", <<>>)>>, NoElse),
            For("i", V("arr"), "arr", NoOpt, NoOpt, FALSE, <<Include(S("b"), "none", NilE, "", <<>>), NOut(P(V("i")))>>, NoElse),
            For("i", V("arr"), "arr", NoOpt, NoOpt, FALSE, <<Include(S("q"), "none", NilE, "", <<>>)>>, NoElse),
+           With(<<WArg("x", I(1))>>, <<NOut(P(X)), Boom>>),
+           For("x", V("arr"), "arr", NoOpt, NoOpt, FALSE, <<NOut(P(X)), Boom>>, NoElse),
+           For("i", V("arr"), "arr", NoOpt, NoOpt, FALSE, <<With(<<WArg("x", V("i"))>>, <<Include(S("e"), "none", NilE, "", <<>>)>>)>>, NoElse),
+           Include(S("e"), "with", X, "", <<WArg("z", I(1))>>), RenderT(S("e"), "for", V("arr"), "", <<>>),
+           Macro("bm", <<Param("x")>>, <<NOut(P(X)), Boom>>), Call("bm", <<I(1)>>, <<>>),
+           Capture("z", <<NText("c"), Boom>>),
            MacroM, MacroI,
            Call("m", <<>>, <<>>), Call("m", <<I(1)>>, <<>>), Call("m", <<I(1), I(2), I(3)>>, <<>>),
            Call("m", <<X>>, <<WArg("w", Z)>>), Call("m", <<I(1)>>, <<WArg("x", I(2)), WArg("u", I(3))>>),
